@@ -7,7 +7,17 @@ from typing import Any
 from .model import ClassRef, ExtRef, FuncInfo, FuncRef, ModRef, Repo, dotted, norm_src, walk_no_nested
 
 
+_ln_cache: dict[int, set[str]] = {}
+
+
 def local_names(fi: FuncInfo) -> set[str]:
+    k = id(fi.node)
+    if k not in _ln_cache:
+        _ln_cache[k] = _local_names(fi)
+    return _ln_cache[k]
+
+
+def _local_names(fi: FuncInfo) -> set[str]:
     out = set(fi.params())
     for n in walk_no_nested(fi.node):
         if isinstance(n, ast.Name) and isinstance(n.ctx, ast.Store):
@@ -19,8 +29,13 @@ def local_names(fi: FuncInfo) -> set[str]:
 
 def resolve_callee(repo: Repo, fi: FuncInfo, call: ast.Call) -> list[FuncInfo] | str | None:
     """Return package functions a call may reach, or a dotted external name, or None (unresolved)."""
-    f = call.func
-    return resolve_func_expr(repo, fi, f)
+    k = (id(repo), id(call))
+    if k not in _rc_cache:
+        _rc_cache[k] = resolve_func_expr(repo, fi, call.func)
+    return _rc_cache[k]
+
+
+_rc_cache: dict[tuple[int, int], Any] = {}
 
 
 def resolve_func_expr(repo: Repo, fi: FuncInfo, f: ast.AST, depth: int = 0) -> list[FuncInfo] | str | None:
